@@ -156,7 +156,24 @@ pub(crate) fn check_include_cycles(tera: &Tera, start: &Template) -> Result<(), 
         visited: &mut HashSet<String>,
     ) -> Result<(), Error> {
         let mut names: Vec<&String> = current.include_calls.keys().collect();
+        // Rendering or including a template also runs code of its ancestors (the base body,
+        // inherited blocks, `super()`), so their includes can be executed on its behalf.
+        let mut ancestors: Vec<&str> = vec![current.name.as_str()];
+        let mut tpl = current;
+        while let Some(parent) = tpl
+            .extends
+            .as_ref()
+            .and_then(|p| tera.resolve_template_name(p))
+        {
+            if ancestors.contains(&parent) {
+                break;
+            }
+            ancestors.push(parent);
+            tpl = &tera.templates[parent];
+            names.extend(tpl.include_calls.keys());
+        }
         names.sort();
+        names.dedup();
         for include_name in names {
             let Some(resolved) = tera.resolve_template_name(include_name) else {
                 continue;
